@@ -122,7 +122,7 @@ def ob_characterize(ctx):
         enzyme = str(getattr(B.cutter, "real", B.cutter))
     else:
         role, enzyme = P["role"], P["enzyme"]
-        B = user_family(st, role, enzyme)
+        B = concrete_family(st, role, enzyme) if P.get("concrete_base") else user_family(st, role, enzyme)
     G = generic_class(st, role, enzyme)
     r = ctx.mk.seq("r", n, "ACGT")
     unique_at_zero(ctx, G.structure(), r, n)
@@ -159,6 +159,20 @@ def user_family(st, role, enzyme):
         B = type(str("FamilyBase_%s_%s" % (role, enzyme)), (st.parts.AbstractPart, base), {"cutter": st.enzyme(enzyme)})
         B._kept_subclasses = [type(str("Family%d_%s_%s" % (i, role, enzyme)), (B,), {"signature": sig})
                               for i, sig in enumerate([("ATGC", "ATTC"), ("ATTC", "NNGG"), ("RYSW", "ATGC")])]
+        _FAM[key] = B
+    return B
+
+
+def concrete_family(st, role, enzyme):
+    """a concrete signature-typed class refined by narrower user subtypes (characterize must try the class itself too)"""
+    key = (st.kind, role, enzyme, "concrete")
+    B = _FAM.get(key)
+    if B is None:
+        base = st.modules.Entry if role == "module" else st.vectors.EntryVector
+        B = type(str("Broad_%s_%s" % (role, enzyme)), (st.parts.AbstractPart, base),
+                 {"cutter": st.enzyme(enzyme), "signature": ("AATG", "NNNN")})
+        B._kept_subclasses = [type(str("Narrow%d_%s_%s" % (i, role, enzyme)), (B,), {"signature": sig})
+                              for i, sig in enumerate([("AATG", "GCTT"), ("AATG", "TTCG")])]
         _FAM[key] = B
     return B
 
@@ -208,6 +222,11 @@ def obligations(tier, seed):
         F = fixed_letters(generic_class(st, role, "BsaI").structure())
         obs.append(Ob("characterize user family %s n=%d" % (role, F + 1), ob_characterize,
                       dict(src="user", role=role, enzyme="BsaI", n=F + 1), samples=4, cost=4 * (F + 1) ** 3,
+                      expect_witness=("none-accepts", "some-accepts")))
+    for role in (["module"] if tier == "quick" else ["module", "vector"]):
+        F = fixed_letters(generic_class(st, role, "BsaI").structure())
+        obs.append(Ob("characterize concrete class with narrower subtypes %s n=%d" % (role, F + 1), ob_characterize,
+                      dict(src="user", role=role, enzyme="BsaI", n=F + 1, concrete_base=True), samples=4, cost=4 * (F + 1) ** 3,
                       expect_witness=("none-accepts", "some-accepts")))
     bases = [("cidar", "CIDARPart")] if tier == "quick" else [("cidar", "CIDARPart"), ("ecoflex", "EcoFlexPart"),
                                                                ("ytk", "YTKPart"), ("moclo", "MoCloPart"), ("plant", "PlantPart")]
